@@ -352,8 +352,11 @@ static int run_event(const char *ev) {
     if (r) {
       coap_persist_set_observe_num(r, val);
       nsent[i] = 0;
+      /* the call-out is made by libcoap with the global lock held */
+      coap_lock_lock(g_ctx, return 1);
       if (g_ctx->track_observe_value)
         g_ctx->track_observe_value(g_ctx, r->uri_path, r->observe, g_ctx->observe_user_data);
+      coap_lock_unlock(g_ctx);
     }
     return 1;
   }
